@@ -403,6 +403,12 @@ def numeric_cases(tier, seed):
     for V in ((7,) if tier == "quick" else (7, 16, 33)):
         for rank in range(V + 1):
             cases.append({"kind": "random-projector", "V": V, "rank": rank, "seed": int(rng.integers(0, 2**31))})
+    # nearly real projectors (imaginary parts 1e-7..1e-6 of the real parts): genuinely complex, markers ~1e-7..1e-5; V <= 8, so the
+    # float error of the triple product is ~1e-15 and the tolerance is tightened by 1e-3 for this family
+    for i in range(12 if tier == "quick" else 60):
+        V = int(rng.integers(4, 9))
+        cases.append({"kind": "random-projector", "V": V, "rank": int(rng.integers(1, V)), "seed": int(rng.integers(0, 2**31)),
+                      "imag_scale": [1e-6, 3e-7, 1e-7, 1e-3][i % 4], "tol_scale": 1e-3})
     nm = 10 if tier == "quick" else 60
     for i in range(nm):
         if i % 3 == 0:
@@ -421,7 +427,7 @@ def numeric_setup(c):
         pos = rng.uniform(-0.2, 1.2, size=(V, 2)) if c["seed"] % 2 else rng.integers(0, 16, size=(V, 2)) / 16.0
         edges = np.array([[i, (i + 1) % V] for i in range(V)], dtype=int)
         lat = Lattice(pos, edges, np.zeros((V, 2), dtype=int))
-        A = rng.standard_normal((V, r)) + 1j * rng.standard_normal((V, r))
+        A = rng.standard_normal((V, r)) + 1j * c.get("imag_scale", 1.0) * rng.standard_normal((V, r))
         if r:
             Q, _ = np.linalg.qr(A)
             P = Q @ Q.conj().T
@@ -518,7 +524,7 @@ def eval_numeric(ctx, cases, label):
             if np.shape(m1) == np.shape(m2) and not np.allclose(m1, m2, rtol=0, atol=1e-9 * (1 + np.max(np.abs(m1), initial=0))):
                 res.violation("marker-differs-on-second-call", f"{what} V={V}: two calls with the same lattice and the same projector object returned markers "
                               f"differing by {np.max(np.abs(np.asarray(m1) - np.asarray(m2))):.3g}; crosshair={ch}", case)
-            tol = FOURPI * TOL * max(V, 1) * (1 + np.max(np.abs(a), initial=0) * np.max(np.abs(b), initial=0))
+            tol = FOURPI * TOL * max(V, 1) * (1 + np.max(np.abs(a), initial=0) * np.max(np.abs(b), initial=0)) * c.get("tol_scale", 1.0)
 
             def chk(key, resid, msg):
                 r = float(resid) / tol
